@@ -653,6 +653,30 @@ impl<'tcx> Cx<'tcx> {
                     if a.provenance().ptrs().is_empty() && start <= len && len - start <= 4096 {
                         let bytes = a.inspect_with_uninit_and_ptr_outside_interpreter(start..len);
                         j.set("bytes", J::s(&hex(bytes)));
+                    } else if len >= start + 16 && is_slice_ref(ty) {
+                        // fat pointer (&[u8] / &str): follow the pointer into its allocation
+                        let raw = a.inspect_with_uninit_and_ptr_outside_interpreter(start..start + 16);
+                        let off = u64::from_le_bytes(raw[0..8].try_into().unwrap()) as usize;
+                        let n = u64::from_le_bytes(raw[8..16].try_into().unwrap()) as usize;
+                        let mut done = false;
+                        for (poff, prov) in a.provenance().ptrs().iter() {
+                            if poff.bytes() as usize == start {
+                                if let Some(rustc_middle::mir::interpret::GlobalAlloc::Memory(t)) = tcx.try_get_global_alloc(prov.alloc_id()) {
+                                    let t = t.inner();
+                                    if off + n <= t.len() && n <= 65536 {
+                                        let bytes = t.inspect_with_uninit_and_ptr_outside_interpreter(off..off + n);
+                                        if let Ok(s) = std::str::from_utf8(bytes) {
+                                            j.set("str", J::s(s));
+                                        }
+                                        j.set("bytes", J::s(&hex(bytes)));
+                                        done = true;
+                                    }
+                                }
+                            }
+                        }
+                        if !done {
+                            j.set("opaque", J::s("indirect"));
+                        }
                     } else {
                         j.set("opaque", J::s("indirect"));
                     }
@@ -897,6 +921,13 @@ impl<'tcx> Cx<'tcx> {
         }
         j.set("items", J::Arr(items));
         j
+    }
+}
+
+fn is_slice_ref(ty: Ty<'_>) -> bool {
+    match ty.kind() {
+        ty::Ref(_, inner, _) => matches!(inner.kind(), ty::Slice(_) | ty::Str),
+        _ => false,
     }
 }
 
